@@ -248,6 +248,8 @@ struct Ctx
 	// oracle mismatch: record and leave the case
 	void fail(const std::string& key, const std::string& detail);
 	void check(bool ok, const char* key, const std::string& detail) { if (!ok) fail(key, detail); }
+	// oracle mismatch after which the process cannot go on (e.g. a library thread is spinning): record, mark the case done, leave the process
+	void fail_exit(const std::string& key, const std::string& detail);
 };
 
 typedef std::function<void(Ctx&)> CaseFn;
@@ -487,6 +489,17 @@ public:
 		return 0;
 	}
 };
+
+inline void Ctx::fail_exit(const std::string& key, const std::string& detail)
+{
+	R->write_anom("oracle", key, detail, idx, curdesc());
+	sh->in_case = 0;
+	sh->done++;
+	sh->evals++;
+	sh->next = idx + opt->nshards;
+	fflush(0);
+	_exit(0);
+}
 
 inline void Ctx::fail(const std::string& key, const std::string& detail)
 {
